@@ -5,7 +5,8 @@
    apart iff their ids differ there (hypothesis of [C05_wrong_group]).
    PARTIAL for the last clause (every device ends up holding every chain key): the theorem
    [C05_distribution_complete] is about the rule system of Model/C05_ChainKeyAnn.v; that
-   group_context.go implements these rules is not covered by a correspondence stream yet.
+   group_context.go implements these rules is checked by the distribution stream of the harness
+   (real GroupContexts, converged logs must be quiescent for the rule system).
    "Registering it makes exactly the sender's subsequent messages openable" is C02
    (C02_store_refines_ratchet / C02_never_before_c) applied to the decrypted (counter, chain). *)
 From Coq Require Import List NArith Bool.
